@@ -35,6 +35,34 @@ def load_justifications():
     return out
 
 
+_IDENT = re.compile(r"(?<![A-Za-z0-9_:.])([a-z_][a-z0-9_]*)(?![A-Za-z0-9_(:])")
+
+
+def norm_desc(desc):
+    """the description with the names of locals abstracted (operators, callee names, constants and field numbers stay): `Sub(prevlen,len(&s))` -> `Sub(_,len(&_))`"""
+    return _IDENT.sub(lambda m: m.group(1) if m.group(1) in ("as", "const", "tuple", "self", "i8", "i16", "i32", "i64", "i128", "isize", "u8", "u16", "u32", "u64", "u128", "usize", "bool", "char", "str") or m.group(1).startswith("arg") else "_", desc)
+
+
+def with_renames(just, obl):
+    """justifications extended to sites whose description differs from a reviewed one only in the names of locals: (fn, kind) must agree, the normalised
+    descriptions must be equal, the reviewed description must no longer occur in that function, and the match must be unique"""
+    out = dict(just)
+    present = {(fn, o.kind, o.desc) for (fn, key), o in obl.items()}
+    by = {}
+    for (fn, kind, desc), reason in just.items():
+        if (fn, kind, desc) not in present:
+            by.setdefault((fn, kind, norm_desc(desc)), []).append((desc, reason))
+    for (fn, key), o in obl.items():
+        k = (fn, o.kind, o.desc)
+        if k in just:
+            continue
+        c = by.get((fn, o.kind, norm_desc(o.desc)), [])
+        if len(c) == 1:
+            out[k] = c[0][1] + " [matched modulo renamed locals; reviewed as `%s`]" % c[0][0]
+            SITES[k] = SITES.get((fn, o.kind, c[0][0]))
+    return out
+
+
 def run_engine(P, tier="quick", extra_roots=()):
     key = (P.config, tier, tuple(extra_roots))
     if key in _cache:
@@ -73,7 +101,7 @@ def run_engine(P, tier="quick", extra_roots=()):
 def report(chk, P, res, rid, desc, fn_filter=None, kinds=None, floor=1):
     """one rule instance per obligation (site) in scope; undischarged ones must be justified by name"""
     eng = res["engine"]
-    just = load_justifications()
+    just = with_renames(load_justifications(), eng.obl)
     chk.rule(rid, desc, floor=floor)
     # one rule per build configuration shares its violation keys: the same site is one finding
     key_rule = "ABSINT" if rid.split(".")[-1] in ("default", "serde", "locales", "nodefault") else None
